@@ -114,7 +114,24 @@ def _run_case(spec):
                 attr = lambda p, h: all('W2F-' in e for e in h.split(' '))
             else:
                 attr = lambda p, h: all('|ORF' in e for e in h.split(' '))
-            compare(f'{flag} off->on', A, B, attr)
+            mech = None
+            lost = set(A) - set(B)
+            if lost and flag in ('sect', 'w2f'):
+                # known finding: with the flag on, the per-transcript denylist also holds the alt-translation forms of the
+                # UNMODIFIED transcript; a variant peptide that equals such a form is then withheld
+                from harness.model import oracle as orc
+                lim = cv.limits_of(case.cfg)
+                if lim.has_context():
+                    lim = lim.mixed_copy('mixed')
+                alt_ref = set()
+                for tx in {r.tx for r in case.recs()} | {r.acc_tx for r in case.recs() if isinstance(r, cv.Fusion)}:
+                    bb = cv.main_backbone(case.ref, tx, [])
+                    fl_on = orc.Flags(sect=case.cfg['sect'] or flag == 'sect', w2f=case.cfg['w2f'] or flag == 'w2f',
+                                      coding_novel_orf=True)
+                    alt_ref |= orc.backbone_peptides(bb, (), lim, fl_on, must=False)
+                if lost <= alt_ref:
+                    mech = 'KF-ALT-REF-DENYLIST'
+            compare(f'{flag} off->on', A, B, attr, mech=mech)
             feat = (kind, flag, case.stratum, case.cfg['rule'], bool(set(B) - set(A)))
         elif kind in ('records', 'records-dense'):
             recs = [(fi, ri) for fi, (_, _, rs) in enumerate(case.files) for ri, r in enumerate(rs)
